@@ -86,7 +86,7 @@ CATALOG = {
     "C18": {
         "drivers": [("index", {"quick": 500, "thorough": 20000}, {})],
         "models": [{"module": "MC_Sort", "cfg": {"quick": "MC_Sort_quick", "thorough": "MC_Sort_thorough"},
-                    "extract": "vectors", "replay": "run_sort_vector", "chunk": 40,
+                    "extract": "sort_vectors", "replay": "run_sort_vector", "chunk": 40,
                     "limit": {"quick": 8000, "thorough": 400000}}],
     },
     "C19": {
